@@ -243,6 +243,9 @@ class EChaos(Engine):
         if rt is int:
             return {'t': 'int', 'v': g.pick([0, 1, -1, 2, 127, 128, 255, 256, -128, -129, 2 ** 31, 2 ** 64, -2 ** 63, 10 ** 30])}
         if rt is float:
+            if g.chance(0.15):
+                # an integer where a float is wanted is an ordinary numeric value - also one no float can hold
+                return {'t': 'int', 'v': g.pick([0, 1, -3, 2 ** 53 + 1, 2 ** 1023, -2 ** 1023, 10 ** 400, -10 ** 400])}
             return {'t': 'float', 'v': g.pick(FLOATS)}
         if rt is str:
             return {'t': 'str', 'v': g.pick(['0', '1', 'ab', '0xff', '0b101', '101', 'fg', '', '7', '0o17', ' a_b ', '0x'])}
